@@ -278,3 +278,106 @@ func rhsFor(f *an.Func, s an.Site, obj types.Object) ast.Expr {
 	}
 	return nil
 }
+
+// definitelyAssigned checks that the variable passed as argument argIdx of
+// the call at site is assigned on every path from its declaration to the
+// call that is consistent under some valuation of the conditions in between
+// (each distinct canonical atom takes one truth value per valuation).
+func definitelyAssigned(o *an.Obl, f *an.Func, site an.Site, argIdx int, what string) {
+	c := site.Node.(*ast.CallExpr)
+	id, ok := an.Strip(f.Info(), c.Args[argIdx]).(*ast.Ident)
+	if !ok {
+		o.FailAt(constructOf(f, site)+"#"+what+"-not-var", site.Where(), "%s is not a variable: %s", what, an.Text(c.Args[argIdx]))
+		return
+	}
+	obj := f.Info().Uses[id]
+	g := f.Graph()
+	var decl *flow.Vertex
+	stop := map[*flow.Vertex]bool{}
+	for _, v := range g.V {
+		for _, a := range assignedTo(f, v, obj) {
+			if a == "decl" {
+				decl = v
+			} else {
+				stop[v] = true
+			}
+		}
+	}
+	if decl == nil || len(stop) == 0 {
+		o.FailAt(constructOf(f, site)+"#"+what+"-shape", site.Where(), "%s: cannot find the zero-value declaration and the assignments of %s", what, id.Name)
+		return
+	}
+	// atoms between declaration and use
+	between := g.Reach(decl, nil, map[*flow.Vertex]bool{site.V: true})
+	atomSet := map[string]bool{}
+	for v := range between {
+		if (v.Kind == flow.KCond || v.Kind == flow.KCase) && g.BackReach(site.V, nil)[v] {
+			atomSet[f.AtomCanon(v)] = true
+		}
+	}
+	var atoms []string
+	for a := range atomSet {
+		atoms = append(atoms, a)
+	}
+	sort.Strings(atoms)
+	if len(atoms) > 8 {
+		o.FailAt(constructOf(f, site)+"#"+what+"-too-many-atoms", site.Where(), "%s: %d conditions between declaration and use; table too large", what, len(atoms))
+		return
+	}
+	for _, val := range an.Valuations(atoms) {
+		reach := f.ReachUnderStop(decl, an.ByCanon(val), stop)
+		o.Site("%s: %s under %s", what, id.Name, an.ValString(atoms, val))
+		if reach[site.V] {
+			o.FailAt(constructOf(f, site)+"#"+what+"-unassigned", site.Where(), "%s: under %s the variable %s reaches %s with its zero value (no case assigns it)", what, an.ValString(atoms, val), id.Name, site.String())
+		}
+	}
+}
+
+// assignedTo reports how vertex v writes obj: "decl" for a declaration
+// without value, "assign" for an assignment.
+func assignedTo(f *an.Func, v *flow.Vertex, obj types.Object) []string {
+	var out []string
+	switch n := v.Node.(type) {
+	case *ast.DeclStmt:
+		if gd, ok := n.Decl.(*ast.GenDecl); ok {
+			for _, sp := range gd.Specs {
+				if vs, ok := sp.(*ast.ValueSpec); ok {
+					for _, nm := range vs.Names {
+						if f.Info().Defs[nm] == obj {
+							if len(vs.Values) == 0 {
+								out = append(out, "decl")
+							} else {
+								out = append(out, "assign")
+							}
+						}
+					}
+				}
+			}
+		}
+	case *ast.AssignStmt:
+		for _, l := range n.Lhs {
+			if id, ok := ast.Unparen(l).(*ast.Ident); ok && (f.Info().Uses[id] == obj || f.Info().Defs[id] == obj) {
+				out = append(out, "assign")
+			}
+		}
+	}
+	return out
+}
+
+// onlyGuards checks that every condition that dominates site matches one of
+// the allowed patterns (on the printed guard): the site must not be
+// restricted further than the table says.
+func onlyGuards(o *an.Obl, f *an.Func, site an.Site, allowed []string, what string) {
+	for _, g := range f.GuardsAt(site) {
+		ok := false
+		for _, re := range allowed {
+			if reMatch(re, g) {
+				ok = true
+			}
+		}
+		o.Site("%s: guard %q at %s", what, g, site.String())
+		if !ok {
+			o.FailAt(constructOf(f, site)+"#"+what+"-extra-guard", site.Where(), "%s: %s is additionally restricted by %q; allowed guards are %v", what, site.String(), g, allowed)
+		}
+	}
+}
